@@ -20,6 +20,9 @@ func (x *Exec) atReturn(st *State, fr *Frame, res []Value, v *ssa.Return) {
 	b := x.b
 	ct := fr.contract
 	x.returns = append(x.returns, st)
+	if len(st.frames) == 1 && v != nil {
+		x.returnSites[v] = append(x.returnSites[v], st)
+	}
 	if ct == nil {
 		return
 	}
@@ -37,6 +40,9 @@ func (x *Exec) atReturn(st *State, fr *Frame, res []Value, v *ssa.Return) {
 	for _, n := range ct.Fresh {
 		if rv, ok := ctx.names[n]; ok {
 			g := b.Lt(objOf(rv), b.Int(0))
+			if ct.FreshOrNil[n] {
+				g = b.Le(objOf(rv), b.Int(0))
+			}
 			x.addObl(st, "post:fresh:"+n, "", nil, g, "result "+n+" is newly allocated")
 		}
 	}
@@ -340,6 +346,34 @@ func VerifyFunc(prog *Program, db *ContractDB, fn *ssa.Function, ct *Contract, c
 			}
 			x.obls = append(x.obls, &Obligation{Name: x.oblName(st, "cover:return", "", nil), Func: res.Label, Kind: "cover",
 				Assume: []*Term{x.b.Or(ds...)}, Bank: x.b, Expect: "sat", Info: "a return is reachable under the assumed contracts", Property: propsOf(ct)})
+			// and so is every return statement of the function: an assumed contract that
+			// contradicts itself or the code silences everything behind it
+			if ct != nil && ct.CoverReturns {
+				for _, blk := range fn.Blocks {
+					for _, in := range blk.Instrs {
+						rv, ok := in.(*ssa.Return)
+						if !ok {
+							continue
+						}
+						var rs []*Term
+						for i, c := range x.returnSites[rv] {
+							if i >= 4 {
+								break
+							}
+							var fs []*Term
+							for _, f := range c.pc {
+								if !x.defFacts[f] && !hasQuant(f, qcache) {
+									fs = append(fs, f)
+								}
+							}
+							rs = append(rs, x.b.And(fs...))
+						}
+						line := x.prog.Fset.Position(rv.Pos()).Line
+						x.obls = append(x.obls, &Obligation{Name: x.oblName(st, fmt.Sprintf("cover:return:L%d", line), "", nil), Func: res.Label, Kind: "cover",
+							Assume: []*Term{x.b.Or(rs...)}, Bank: x.b, Expect: "sat", Info: "this return statement is reachable under the assumed contracts", Property: propsOf(ct)})
+					}
+				}
+			}
 		}
 	}
 	return
